@@ -341,3 +341,92 @@ func TestC03Session(t *testing.T) {
 		}
 	})
 }
+
+// TestC03WindowShrunk: the receiving application lowers its receive window on
+// the live connection - at a drawn time or at the moment its delivery queue is
+// full with acknowledged segments parked behind it (the sender has released
+// them: nobody will send them again). Nothing may be lost: after the stall the
+// transfer resumes and completes, every byte in order (the simulator's content
+// oracle). The new window still holds the largest message (in message mode a
+// message must fit the receive window).
+func TestC03WindowShrunk(t *testing.T) {
+	rec := hx.NewRecorder(t)
+	rapid.Check(t, func(rt *rapid.T) {
+		cfg := sim.DrawCoreCfg(rt)
+		cfg.EP[1].RcvWnd = rapid.SampledFrom([]int{2, 3, 4, 8, 16, 64}).Draw(rt, "rcvwnd")
+		fs := sim.DrawFateScript(rt, sim.FateOpts{MaxExplicit: 8, MaxRegimes: 2, MaxRegLen: 80, MaxDelay: 300, MaxLossPm: 200})
+		app := drawCoreApps(rt, cfg, 40, 150_000)
+		if len(app[0].Writes) == 0 {
+			app[0].Writes = []int{mssOf(cfg.EP[0]) * min(3, cfg.EP[1].RcvWnd)}
+		}
+		var total int64
+		need := 1
+		for _, n := range app[0].Writes {
+			total += int64(n)
+			if !cfg.Stream {
+				need = max(need, (n+mssOf(cfg.EP[0])-1)/mssOf(cfg.EP[0]))
+			}
+		}
+		var longest int64
+		app[0].Pauses, longest = drawPauses(rt, total)
+		div := rapid.SampledFrom([]int{2, 4, 1000}).Draw(rt, "shrinkBy")
+		whenFull := rapid.Bool().Draw(rt, "shrinkWhenQueueFull")
+		at := int64(rapid.IntRange(0, int(min(longest+2000, 650_000))).Draw(rt, "shrinkAt"))
+		var st sim.CoreStats
+		shrunk, parked := 0, 0
+		rapid.SyncTest(rt, func(rt *rapid.T) {
+			s := sim.NewCoreSim(cfg, fs, app)
+			shrink := func() {
+				v := s.K[1].VerifState(false)
+				to := max(1, need, int(v.RcvWnd)/div)
+				if to < int(v.RcvWnd) {
+					s.K[1].WndSize(0, to)
+					shrunk++
+					if v.RcvBuf > 0 {
+						parked++
+					}
+				}
+			}
+			if whenFull {
+				done := false
+				s.OnStep = func(what string, ep int) error {
+					if v := s.K[1].VerifState(false); !done && v.RcvQueue >= int(v.RcvWnd) && v.RcvBuf > 0 {
+						done = true
+						shrink()
+					}
+					return nil
+				}
+			} else {
+				s.Ops = append(s.Ops, sim.TimedOp{At: at, Name: "receive window lowered at the receiver", Fn: func(s *sim.CoreSim) error { shrink(); return nil }})
+			}
+			var pauseSum int64
+			for _, p := range app[0].Pauses {
+				pauseSum += p.Ms
+			}
+			err := runUntilDrainedAfter(s, cfg, fs, app, pauseSum+pauseSum+180_000)
+			st = s.Stats
+			if err == errScriptUnfinished {
+				rec.Class("script_unfinished_inconclusive", 1)
+				err = nil
+			}
+			if err != nil {
+				rt.Fatalf("C03 (receive window lowered in mid-connection): %v\npauses %+v, window divided by %d (at least %d) %s\ncase: %+v", err, app[0].Pauses, div, need,
+					map[bool]string{true: "when the delivery queue was full with segments parked behind it", false: fmt.Sprintf("at %d ms", at)}[whenFull], describeCore(cfg, fs, app))
+			}
+		})
+		cl := coreClasses(&st)
+		if shrunk > 0 {
+			cl = append(cl, "receive_window_lowered_in_mid_connection")
+		}
+		if parked > 0 {
+			cl = append(cl, "lowered_with_segments_parked_behind_the_queue")
+		}
+		rec.Case(hx.Hash64(cfg, fs.Describe(), app, div, whenFull, at), parked > 0, cl...)
+		if rec.WantSample() {
+			d := describeCore(cfg, fs, app)
+			d["shrink"] = map[string]any{"divide_by": div, "when_queue_full": whenFull, "at_ms": at, "done": shrunk}
+			d["stats"] = st
+			rec.Sample(d)
+		}
+	})
+}
